@@ -39,6 +39,9 @@ function injections(p) {
       // drop the end tag `</name>`
       const end = tokens[i + 2]
       out.push({ name: `drop-end-tag@${t.off}`, text: cut(t.off, end.offEnd), expect: ['missing end tag'] })
+      // cut the text inside the end tag (an unterminated tag): after `</` and after `</name`
+      out.push({ name: `cut-end-tag-after-name@${end.off}`, text: text.slice(0, end.off), expect: ['incomplete tag', 'missing end tag'] })
+      out.push({ name: `cut-end-tag-after-slash@${t.offEnd}`, text: text.slice(0, t.offEnd), expect: ['incomplete tag', 'missing end tag', 'invalid end tag', 'unexpected character'] })
     }
     if (t.kind === 'tag-name' && t.text !== 'wxs') {
       out.push({ name: `cut-start-tag-after-name@${t.offEnd}`, text: text.slice(0, t.offEnd), expect: ['incomplete tag'] })
@@ -213,7 +216,7 @@ async function main() {
   }
   const rep = await C.runSharded(__filename, ['--tier', thorough ? 'thorough' : 'quick'])
   const res = rep.toResult('C15',
-    '(a) every template of the model corpus and of the scope skeletons in each of the 9 concrete-syntax variants: no diagnostic at Warn or above; (b) on the default and the paired-tag printing (thorough: also two multi-line printings) every applicable single defect at every site: drop an end tag, cut the start tag at EOF after the tag name and after every attribute, drop a }}, garbage inside a binding, wx:bogus and bogus:x after every tag name, duplicate every attribute (every family and the control attributes), an element or a text child under include / import / template-is / slot / wxs-with-src, remove src / module / is - at least one diagnostic of the expected kind at the documented level or above (table embedded in the checker); (c) every diagnostic of every run, including all single-character deviations (17 symbols incl. multi-byte and astral) of multi-line printings: start <= end, lines exist, columns within the UTF-16 length of their line. non-trivial = injected inputs',
+    '(a) every template of the model corpus and of the scope skeletons in each of the 9 concrete-syntax variants: no diagnostic at Warn or above; (b) on the default and the paired-tag printing (thorough: also two multi-line printings) every applicable single defect at every site: drop an end tag, cut the start tag at EOF after the tag name and after every attribute, cut every end tag at EOF after `</` and after its name, drop a }}, garbage inside a binding, wx:bogus and bogus:x after every tag name, duplicate every attribute (every family and the control attributes), an element or a text child under include / import / template-is / slot / wxs-with-src, remove src / module / is - at least one diagnostic of the expected kind at the documented level or above (table embedded in the checker); (c) every diagnostic of every run, including all single-character deviations (17 symbols incl. multi-byte and astral) of multi-line printings: start <= end, lines exist, columns within the UTF-16 length of their line. non-trivial = injected inputs',
     { corpus: casesOf(thorough).length, syntax_variants: T.SYNTAX_VARIANTS.length, documented_levels: DOCUMENTED },
     true,
     ['the documented level table is embedded in the checker and not read back from ParseErrorKind::level', 'the printers emit documented syntax only'],
